@@ -52,7 +52,7 @@ def run_case(cs):
     idx = int(cs.seed_str.rsplit(":", 1)[1])
     exhaustive = cs.tier == "thorough" and idx < len(EXH)
     d = cs.dir()
-    root = os.path.join(d, "R")
+    root = os.path.join(d, world.root_name(rng))
     os.makedirs(root)
     if exhaustive:
         seq, pat = EXH[idx]
